@@ -710,9 +710,11 @@ class Field(Criterion, JSON):
             yield from self.table.nodes_()
 
     def __hash__(self) -> int:
-        # Columns of different tables may share a name, so the table is part of the hash
+        # Columns of different tables may share a name, so the table is part of the hash - with its schema, which the
+        # namespace of a column reference does not show (fields_() keeps one field per hash: == builds a criterion)
         ctx = DEFAULT_SQL_CONTEXT.copy(with_alias=True, with_namespace=True)
-        return hash(self.get_sql(ctx))
+        table_sql = self.table.get_sql(ctx) if self.table is not None else None
+        return hash((self.get_sql(ctx), table_sql))
 
     @builder
     def replace_table(  # type:ignore[return]
